@@ -25,6 +25,11 @@ _real_isfile = os.path.isfile
 _real_exists = os.path.exists
 
 
+SELFBREAK = os.environ.get("VERIF_SELFBREAK", "")
+_SELFBREAK_RUNS = 0
+_SELFBREAK_SEEN = set()
+
+
 class FaultPlan(object):
     """Fire one fault at the first fs op with index >= k whose type fits kind.
 
@@ -249,6 +254,8 @@ class SimFS(object):
         n = self._next_op()
         if raw._writing:
             data = bytes(self.files.get(path, b""))
+            if SELFBREAK:
+                data = self._selfbreak(path, data)
             self.trace.written[path] = data
             self.trace.open_write_unclosed.discard(path)
             self.trace.ev("close", path, sha1(data))
@@ -258,6 +265,32 @@ class SimFS(object):
                 raise OSError(errno.EIO, "Input/output error (simulated)", path)
         else:
             self.trace.ev("close", path, "r")
+
+    def _selfbreak(self, path, data):
+        """tools/selfbreak.sh only (VERIF_SELFBREAK set): the *seam* misbehaves the way a broken
+        shroud would, to show that each pipeline turns such behaviour into a VIOLATION."""
+        import re as _re
+        global _SELFBREAK_RUNS
+        if SELFBREAK == "hashseed" and path.endswith(".h"):
+            data += b"/* %d */\n" % (hash("selfbreak") & 3)  # depends on PYTHONHASHSEED
+        elif SELFBREAK == "state" and path.endswith(".h"):
+            if id(self.trace) not in _SELFBREAK_SEEN:
+                _SELFBREAK_SEEN.add(id(self.trace))
+                _SELFBREAK_RUNS += 1
+            if _SELFBREAK_RUNS > 1:
+                data += b"/* not the first run of this process */\n"
+        elif SELFBREAK == "escape" and path.endswith(".f"):
+            stray = "/sim/stray/" + path.rsplit("/", 1)[-1]
+            self.dirs.add("/sim/stray")
+            self.files[stray] = bytearray(data)
+            self.trace.written[stray] = data
+            self.trace.ev("close", stray, sha1(data))
+        elif SELFBREAK == "dropline":
+            lines = data.split(b"\n")
+            keep = [l for l in lines if not _re.search(rb"u\d+x\d+k1\b", l)]
+            data = b"\n".join(keep)
+        self.files[path] = bytearray(data)
+        return data
 
     # ---- the seam itself
     def open(self, file, mode="r", buffering=-1, encoding=None, errors=None,
